@@ -100,6 +100,29 @@ def appended_files_must_exist(ctx: Ctx, rid: str = "C11.R8") -> None:
              "them (a file deleted between queueing and commit fails the commit instead of being committed)", 3)
     af = ctx.fn("transaction.Transaction.append_files")
     n1 = missing_file_raises(ctx, af, rid, "append_files: missing file -> raise")
+    scopes = [af]
+    if n1 == 0:
+        # the per-file checks may live in a validator that append_files hands the whole batch to
+        for n_ in ctx.cfg(af).calls():
+            for t_ in ctx.eff.callees(af, n_):
+                if t_.module is af.module and t_.cls is af.cls and t_ is not af and t_ not in scopes:
+                    k_ = missing_file_raises(ctx, t_, rid, f"append_files -> {t_.name}: missing file -> raise")
+                    n1 += k_
+                    if k_:
+                        scopes.append(t_)
+    # ... for EVERY file of the batch: the loop over the files handed in is left only when it is exhausted (or by a raise)
+    from .common import loop_early_exits
+    for sc_ in scopes:
+        g_ = ctx.cfg(sc_)
+        for lp_ in [l_ for l_ in g_.nodes if l_.kind == "loop" and isinstance(l_.ast, ast.For) and l_.id in g_.reachable()
+                    and not any(fr.kind == "loop" and fr.node is not l_.ast for fr in l_.frames)
+                    and any(ctx.eff.storage_op(c_) == "exists" or any(t2.name == "validate_file_exists" for t2 in ctx.eff.callees(sc_, c_))
+                            for c_ in g_.calls() if any(fr.kind == "loop" and fr.node is l_.ast for fr in c_.frames))]:
+            ex_ = loop_early_exits(g_, lp_)
+            ctx.ob(rid, sc_, "every file of the batch is checked", lp_, not ex_,
+                   f"`{lp_.text[:50]}`" + (f" is left early at {sc_.file}:{g_.nodes[ex_[0][0]].lineno} `{g_.nodes[ex_[0][0]].text[:40]}`: the files "
+                                          "listed after it are queued unchecked (a missing or schema-divergent file is committed)" if ex_
+                                          else " runs to exhaustion"), text=f"{sc_.name}:loop")
     vd = ctx.fn("file_manager.FileManager.validate_data_files")
     n2 = missing_file_raises(ctx, vd, rid, "validate_data_files: missing file -> raise")
     if n1 == 0 or n2 == 0:
@@ -622,13 +645,30 @@ def r2(ctx: Ctx) -> None:
     adom = ctx.dom(af, NORMAL)
     ve = ctx.calls(af, name="validate_file_exists")
     vs = ctx.calls(af, name="_validate_file_schema")
+    # batch form: append_files hands the whole list to the validator, which loops over it itself (existence test and footer
+    # comparison inside ITS per-file loop); the call dominates the queuing
+    vf_ = ctx.fn(TX + "._validate_file_schema")
+    vg2 = ctx.cfg(vf_)
+    batch = False
+    if vs and not any(any(fr.kind == "loop" for fr in v.frames) for v in vs):
+        vloops = [l for l in vg2.nodes if l.kind == "loop" and isinstance(l.ast, ast.For)]
+        def _in(l_, n_) -> bool:
+            return any(fr.kind == "loop" and fr.node is l_.ast for fr in n_.frames)
+        batch = any(any(_in(l, c) for c in ctx.calls(vf_, name="validate_file_exists"))
+                    and any(_in(l, c) for c in vg2.calls() if c.callee and c.callee.name.endswith(".equals")) for l in vloops)
     for x in q:
         loops = [l for l in ag.nodes if l.kind == "loop" and l.id in adom[x.id]]
         ok = bool(ve) and bool(vs) and bool(loops) and all(any(fr.kind == "loop" for fr in v.frames) for v in ve + vs)
+        if batch:
+            ok = all(v.id in adom[x.id] for v in vs)
         ctx.ob("C11.R2", af, "existence and footer-schema checks run for every file before queuing", x, ok,
                "a divergent / missing pre-built file is rejected before it is queued (audit #49)")
     for v in vs:
         brs = [b for b in ag.nodes if b.kind == "branch" and b.id in adom[v.id] and "table_schema" in b.text]
+        if batch and not brs:
+            eqs = [c for c in vg2.calls() if c.callee and c.callee.name.endswith(".equals")]
+            vdom2 = ctx.dom(vf_, NORMAL)
+            brs = [b for b in vg2.nodes if b.kind == "branch" and "table_schema" in b.text and any(b.id in vdom2[e.id] for e in eqs)]
         ctx.ob("C11.R2", af, "schema check skipped only for schema-less tables", v, bool(brs), "`if table_schema is not None`")
 
 
